@@ -207,7 +207,8 @@ def run_case(case):
                                  ns=int(rng.integers(1, 10 ** 8)), aimax=aimax, maxint=maxint,
                                  explicit_maxint=bool(rng.integers(0, 2)) if maxint == 512 else True, extra=extra,
                                  tilde=bool(rng.integers(0, 2)), raw=np.zeros((1, 1), np.int16),
-                                 port_slot=(int(rng.choice([0, 1, 2, 4])), int(rng.choice([0, 2, 3, 21]))),       # OneBox ports start at 0
+                                 # OneBox ports start at 0; reduced / exported NP2 and NPultra headers may lack the two fields (a type-0 header without them IS a 3B1)
+                                 port_slot=(None if (kind in ("NP2.1", "NP2.4", "NPultra") and rng.random() < 0.2) else (int(rng.choice([0, 1, 2, 4])), int(rng.choice([0, 2, 3, 21])))),
                                  encoding="shank" if kind == "NPultra" or rng.random() < 0.5 else "geom")
                     exp_ver, exp_major, exp_type = kind, G.major(kind), stream
                     nontriv = (not np2 and np.any(gains[:n, 0] != gains[:n, 1])) or n < 384
